@@ -47,6 +47,7 @@ MIRI_GROUPS_EXTRA = [  # thorough only, fewer seeds
     ["WindowStatement", "SqlWriterValues", "ColumnDef", "ColumnRef/TableColumn"],
     ["TableRef/SubQuery"],
     ["Condition", "TableAlterStatement"],
+    ["SimpleExpr/deep", "inject_parameters"],
 ]
 
 TIERS = {
